@@ -48,3 +48,54 @@ Theorem C07_noninterference_trace : forall es1 i e es2 i1,
   exists o, run i (es1 ++ e :: es2) = run i es1 ++ SROk o (snapshot_of i1) :: run i1 es2
             /\ run i (es1 ++ es2) = run i es1 ++ run i1 es2.
 Proof. exact run_insert. Qed.
+
+(** In EVERY reachable state (any set-up whose initialisation succeeds, any
+    event list) the slave port's selected master is parentDS.parentPortIdentity:
+    the source filter of Sync / Follow_Up / Delay_Resp and the data sets never
+    disagree about who the parent is. *)
+From SV Require Import Port.ParentInv Port.MainC07 Port.MainC07b.
+Theorem C07_slave_follows_parent : forall s es i o i',
+  init s = Ok (i, o) -> run_state i es = Some i' -> slave_parent i'.
+Proof. exact slave_follows_parent. Qed.
+
+(** Consequently, in every reachable state, every frame of ANY ignorable class
+    of the oracle ok_C07 (other PTP version, malformed, other domain / sdoId,
+    Announce bearing the port's own identity or from a clock outside the
+    acceptable-master list, Sync / Follow_Up not from the parent shown by
+    parentDS, Delay_Resp not from it or for another requester) is a stuttering
+    step: same instance afterwards, nothing observable but lock reads.  The
+    Announce class rests on the invariant inst_acc: every stored foreign-master
+    record and every slave port's selected master passed the acceptable-master
+    filter and is not the port itself. *)
+Theorem C07_ignorable_stutters_reachable : forall s es rel tr i o i' e,
+  setup_valid s -> Forall event_valid es -> init s = Ok (i, o) -> run_state i es = Some i' ->
+  ignorable (mkCase s es rel (Some o) tr) (snapshot_of i') e = true -> stutters i' e.
+Proof. exact ignorable_stutters_reachable. Qed.
+
+(** the same for the classes other than Announce, with their own statement *)
+Theorem C07_ignorable_na_stutters_reachable : forall s es rel tr i o i' e,
+  setup_valid s -> Forall event_valid es -> init s = Ok (i, o) -> run_state i es = Some i' ->
+  ignorable_na (mkCase s es rel (Some o) tr) (snapshot_of i') e = true -> stutters i' e.
+Proof. exact ignorable_na_stutters_reachable. Qed.
+
+(** ... and inserting it anywhere in a history changes neither the states
+    reached nor anything observable about the other calls. *)
+Theorem C07_insert_ignorable_unchanged : forall s es1 e es2 rel tr i o i1,
+  setup_valid s -> Forall event_valid es1 -> init s = Ok (i, o) -> run_state i es1 = Some i1 ->
+  ignorable_na (mkCase s es1 rel (Some o) tr) (snapshot_of i1) e = true ->
+  run_state i (es1 ++ e :: es2) = run_state i (es1 ++ es2) /\
+  exists o', run i (es1 ++ e :: es2) = run i es1 ++ SROk o' (snapshot_of i1) :: run i1 es2
+             /\ run i (es1 ++ es2) = run i es1 ++ run i1 es2.
+Proof. exact insert_ignorable_unchanged. Qed.
+
+(** C07_main: for every valid set-up, EVERY valid event list and EVERY set of
+    insertion positions, the COMPLETE oracle ok_C07 accepts the model's own pair
+    of runs (the history, and the history without the events at those positions):
+    wherever an inserted event is of an ignorable class it produces nothing but
+    lock reads and leaves the getters unchanged, and every other event produces
+    exactly what it produces in the base run. *)
+Theorem C07_main : forall s es pos rel1 rel2 i o,
+  setup_valid s -> Forall event_valid es -> init s = Ok (i, o) ->
+  ok_C07 (mkC07 (mkCase s (drop_at 0 pos es) rel1 (Some o) (run i (drop_at 0 pos es)))
+                (mkCase s es rel2 (Some o) (run i es)) pos) = true.
+Proof. exact ok_C07_model. Qed.
